@@ -507,6 +507,9 @@ def unit_bounded_setup(tier=None, seed=0):
         "preprocessing 1,2,3,4,5,6 in the order of available()": (script(p0="AVAILABLE"), "reprompt-or-valid"),
         "model 1": (script(p1="1"), {"model_key": "hertz_cone"}),
         "E value 1234": (script(p2="1234"), {"fit param E value": 1234.0}),
+        # a fit cannot start from a non-finite number: such an answer must not end up in a profile
+        "E value nan": (script(p2="nan") + ["", ""], "reprompt-or-valid"),
+        "contact point value inf": (script(p8="inf") + ["", ""], "reprompt-or-valid"),
         "E vary false": (script(p3="false"), {"fit param E vary": False}),
         "range type relative": (script(p12="relative"), "relative"),
         "range type absolute": (script(p12="absolute"), {"range_type": "absolute"}),
